@@ -45,7 +45,7 @@ SHARD_TIMEOUT = {'quick': 600, 'thorough': 2400}
 EXHAUSTIVE = {'quick': True, 'thorough': True}
 MIN_HITS = {
     'quick': {
-        'mon:concat-pcd': 3500, 'mon:concat-pfd': 3500, 'mon:full-pcd': 15000, 'mon:full-pfd': 15000, 'mon:bucket-pcd': 7000,
+        'hit:held-batches': 3000, 'mon:concat-pcd': 3500, 'mon:concat-pfd': 3500, 'mon:full-pcd': 15000, 'mon:full-pfd': 15000, 'mon:bucket-pcd': 7000,
         'mon:bucket-pfd': 7000, 'mon:repeat-padded': 6000, 'mon:reject': 400, 'reject:padded-preprocessor': 60,
         'reject:padded-features': 60, 'reject:bsb-preprocessor': 50, 'reject:bsb-features': 50,
         'mon:multiset-shuffle': 2500, 'mon:repro-shuffle': 2500, 'mon:order-shuffle': 400, 'mon:repeat-iter': 300,
@@ -330,6 +330,34 @@ def padded_point(ctx, fedjax, cd, fd_mod, rng, b, k, sizes):
     if isinstance(src, BoundedPass):
       ctx.check(not src.overflow, 'repeat-padded/pass-yields-extra-items',
                 f'a pass over a RepeatableIterator of {m} datasets yields more than {m} items', wit)
+
+  # ---- batches already handed out stay what they were: the first stream's batches are still held (as list(...) of an
+  #      evaluation stream is) while a second stream of the same layout and sizes -- hence the same padded shapes -- but
+  #      different values is batched
+  if r.ok and total > 0:
+    held = r.value[0]
+    snap = [{f: np.array(v, copy=True) for f, v in bt.items()} for bt in held]
+    raws2 = []
+    for raw in raws:
+      raw2 = {}
+      for name, v in raw.items():
+        if v.dtype.kind in 'iu':
+          raw2[name] = (v + np.asarray(7, v.dtype)).astype(v.dtype)
+        elif v.dtype.kind == 'f':
+          raw2[name] = (v * np.asarray(-2, v.dtype) - np.asarray(1, v.dtype)).astype(v.dtype)
+        elif v.dtype.kind == 'b':
+          raw2[name] = ~v
+        else:
+          raw2[name] = np.roll(v, 1, axis=0) if len(v) > 1 else v.copy()
+      raws2.append(raw2)
+    dsets2 = [cd.ClientDataset(r2_, pre) if (fns or shared != 2) else cd.ClientDataset(r2_) for r2_ in raws2]
+    r2 = ctx.call('padded_batch_client_datasets', lambda: list(hp_call(fedjax.padded_batch_client_datasets, dsets2)), witness=wit)
+    if r2.ok:
+      ctx.count('hit:held-batches')
+      bad = next(((i, f) for i, (x, y) in enumerate(zip(held, snap)) for f in y if f not in x or not bit_equal(x[f], y[f])), None)
+      ctx.check(bad is None and len(held) == len(snap), 'held/padded-batches-changed-by-later-stream',
+                'padded batches of one stream, still held by the consumer, changed when another stream of the same layout was '
+                'batched', {**wit, 'first_changed': bad})
 
   if m:
     ids = gen.hostile_client_ids(rng, m)
